@@ -115,6 +115,10 @@ def runtime_cases(tier, rng):
             cases.append("rawptr%s tainted %d" % (cfg, a))
             cases.append("rawptr%s tvol %d" % (cfg, a))
             cases.append("rawptr%s accept %d" % (cfg, a))
+        # the same entry points with a function-pointer type (1 = the address of an application function)
+        for a in [1, 0, A, A + 64, A + size - 1, A + size, Bb + 5, APP_BASE, (1 << 47) - 1] + [rng.randrange(A, A + size) for _ in range(20)]:
+            cases.append("rawptr%s acceptfn %d" % (cfg, a))
+            cases.append("rawptr%s taintedfn %d" % (cfg, a))
     return cases
 
 
